@@ -68,7 +68,7 @@ func (c *cfg4T) conf() fiber.Config {
 }
 
 // cfg4s: {StrictRouting} x {CaseSensitive} x {UnescapePath} x {default ctx, custom ctx, custom
-// method list}; the thorough tier adds custom ctx + custom method list together.
+// method list, both}; in the quick tier "both" runs on the all-off and the all-on routing valuation only.
 func cfg4s(quick bool) []cfg4T {
 	var out []cfg4T
 	onoff := func(b bool, s string) string {
@@ -81,10 +81,10 @@ func cfg4s(quick bool) []cfg4T {
 		n      string
 		cc, cm bool
 	}{{"defaultctx", false, false}, {"customctx", true, false}, {"methods", false, true}, {"customctx+methods", true, true}} {
-		if quick && k.cc && k.cm {
-			continue
-		}
 		for bits := 0; bits < 8; bits++ {
+			if quick && k.cc && k.cm && bits != 0 && bits != 7 {
+				continue // quick tier: the pair custom ctx + custom method list on the all-off and all-on routing valuations only
+			}
 			c := cfg4T{Strict: bits&1 != 0, CaseS: bits&2 != 0, Unescape: bits&4 != 0, CustomCtx: k.cc, CustomM: k.cm}
 			c.Name = k.n + " " + onoff(c.Strict, "strict") + onoff(c.CaseS, "case") + onoff(c.Unescape, "unescape")
 			out = append(out, c)
@@ -113,6 +113,12 @@ type shapeT struct {
 	Witness string
 	Reg     func(app *fiber.App, h *shapeH)
 }
+
+// evenLen is a custom constraint: parameters of even length.
+type evenLen struct{}
+
+func (evenLen) Name() string                           { return "evenLen" }
+func (evenLen) Execute(param string, _ ...string) bool { return len(param)%2 == 0 }
 
 func regAll(app *fiber.App, h fiber.Handler, paths ...string) {
 	for _, p := range paths {
@@ -262,6 +268,16 @@ var shapes = []shapeT{
 	{Name: "ep-escaped", Kind: "endpoint-escaped", Witness: "/api/v1:x", Reg: func(app *fiber.App, h *shapeH) {
 		regAll(app, h.ep, "/api/v1\\:x", "/api/:id\\:verb", "/a\\*", "/ab\\+/:p?")
 	}},
+	// --- parameters directly after each other (one-character parameters: routeSegment.Length)
+	{Name: "ep-adjacent-params", Kind: "endpoint-adjacent", Witness: "/api/v1", Reg: func(app *fiber.App, h *shapeH) {
+		regAll(app, h.ep, "/api/:a:b", "/api/:a:b:c?/x", "/:x:y", "/ab:p:q?", "/a/:m:n/*")
+	}},
+	// --- the remaining constraint kinds, two constraints on one parameter, a custom constraint
+	{Name: "ep-constraints-2", Kind: "endpoint-constraint", Witness: "/api/7", Reg: func(app *fiber.App, h *shapeH) {
+		app.RegisterCustomConstraint(evenLen{})
+		regAll(app, h.ep, "/api/:n<max(8)>", "/api/v1/:s<len(1)>", "/a/:m<maxLen(1)>", "/ab/:r<regex(^a[0-9]?$)>?", "/abc/:q<min(2);max(40)>?/:z<len(2)>?",
+			"/api/:e<evenLen>/x", "/:k<betweenLen(4,5)>", "/api/:u<unknown>/y")
+	}},
 	{Name: "route-chain", Kind: "route-chain", Witness: "/api/v1", Reg: func(app *fiber.App, h *shapeH) {
 		app.Route("/api").Get(h.ep).Post(h.ep).Route("/v1").All(h.mw).Get(h.ep)
 		app.Route("/").All(h.mw)
@@ -345,6 +361,28 @@ var fixedTargets4 = []target4{
 	{"/a//", "short-path", true, false}, {"/-", "short-path", true, false}, {"/:", "short-path", true, false}, {"/+", "short-path", true, false},
 	{"/a-", "short-path", true, false}, {"/a/b", "short-path", true, false}, {"/A", "short-path", true, false}, {"/Ab/", "short-path", true, false},
 	{"/a/b/c", "short-path", true, false}, {"/a/x/y", "short-path", true, false},
+	// values for the parameter constraints (one accepted and one refused per constraint kind), numbers
+	// at and beyond the integer range, parameter values one character long and long
+	{"/api/7/x", "constraint-value", true, false}, {"/api/1234/x", "constraint-value", true, false}, {"/api/0/x", "constraint-value", true, false},
+	{"/api/9", "constraint-value", true, false}, {"/api/-7", "constraint-value", true, false}, {"/api/99999999999999999999", "constraint-value", true, false},
+	{"/api/9223372036854775807/x", "constraint-value", true, false}, {"/api/v1/5", "constraint-value", true, false}, {"/api/v1/0", "constraint-value", true, false},
+	{"/api/v1/10", "constraint-value", true, false}, {"/api/ab/x", "constraint-value", true, false}, {"/api/abc/x", "constraint-value", true, false}, {"/api/ab/y", "constraint-value", true, false},
+	{"/a/x9", "constraint-value", true, false}, {"/a/x_", "constraint-value", true, false}, {"/a/m", "constraint-value", true, false},
+	{"/ab/00000000-0000-0000-0000-000000000000", "constraint-value", true, false}, {"/ab/2006-01-02", "constraint-value", true, false}, {"/ab/2006-13-45", "constraint-value", true, false},
+	{"/ab/a1", "constraint-value", true, false}, {"/ab/b1", "constraint-value", true, false},
+	{"/abc/true", "constraint-value", true, false}, {"/abc/1.5", "constraint-value", true, false}, {"/abc/1.5/ab", "constraint-value", true, false}, {"/abc/1.5/abc", "constraint-value", true, false},
+	{"/abc/1e400/ab", "constraint-value", true, false}, {"/abc/30/zz", "constraint-value", true, false}, {"/abc/41", "constraint-value", true, false},
+	{"/abcd", "constraint-value", true, false}, {"/abcdef", "constraint-value", true, false}, {"/api/v/x", "constraint-value", true, false}, {"/abx/", "constraint-value", true, false},
+	{"/a/xy/z/w", "constraint-value", true, false}, {"/" + strings.Repeat("k", 300), "constraint-value", true, false},
+	// multi-byte and invalid UTF-8 in the path, raw (not a valid request target: only crash-freedom and response
+	// syntax are judged) and percent-encoded; U+212A and U+0130 get SHORTER under case mapping (3 -> 1, 2 -> 1 bytes), U+023A gets LONGER (2 -> 3 bytes)
+	{"/api/\xc3\x84", "multibyte-raw", false, false}, {"/api/\xe2\x84\xaa", "multibyte-raw", false, false}, {"/\xc4\xb0", "multibyte-raw", false, false},
+	{"/api/\xff", "multibyte-raw", false, false}, {"/\xe2\x84\xaapi/v1", "multibyte-raw", false, false}, {"/API/\xc4\xb0/X", "multibyte-raw", false, false},
+	{"/ab\xf0\x9f\x98\x80", "multibyte-raw", false, false}, {"/api/v1/\xc3", "multibyte-raw", false, false},
+	{"/\xc8\xba", "multibyte-raw", false, false}, {"/api/\xc8\xba", "multibyte-raw", false, false}, {"/api/\xc8\xba/x", "multibyte-raw", false, false},
+	{"/%C8%BA", "multibyte-encoded", true, false}, {"/api/%C8%BA", "multibyte-encoded", true, false}, {"/api/%C8%BA/x", "multibyte-encoded", true, false},
+	{"/api/%C3%84", "multibyte-encoded", true, false}, {"/api/%E2%84%AA/x", "multibyte-encoded", true, false}, {"/%C4%B0", "multibyte-encoded", true, false},
+	{"/%E2%84%AApi/v1", "multibyte-encoded", true, false}, {"/API/%C4%B0/X", "multibyte-encoded", true, false}, {"/ab%F0%9F%98%80", "multibyte-encoded", true, false},
 }
 
 var targets4 = buildTargets4()
@@ -517,10 +555,10 @@ func f4Rule(quick bool) string {
 	for _, s := range shapes {
 		nk[s.Kind] = true
 	}
-	return fmt.Sprintf("F4 = application shapes x degenerate targets, a full product: %d shape sets (%d route-registration shapes of %d kinds: root/prefix/parameter/wildcard Use, groups, mounted sub-apps, constant/parameter/optional/wildcard/greedy/constrained/delimiter/escaped endpoints, route chains, a path-rewriting middleware%s) "+
-		"x %d routing configurations ({StrictRouting} x {CaseSensitive} x {UnescapePath} x {default ctx, custom ctx, custom RequestMethods%s}) "+
-		"x %d targets (slash-only, dot segments, encoded slash/dot/NUL, asterisk, absolute/authority form, no leading slash, query/fragment only, empty, 1-4 byte paths, and %d route bases x %d suffixes: slash runs, every delimiter of the route grammar, encoded bytes, dot segments, queries) "+
+	return fmt.Sprintf("F4 = application shapes x degenerate targets, a full product: %d shape sets (%d route-registration shapes of %d kinds: root/prefix/parameter/wildcard Use, groups, mounted sub-apps, constant/parameter/optional/wildcard/greedy/constrained (every built-in constraint kind, a custom and an unknown one)/delimiter/escaped/adjacent-parameter endpoints, route chains, a path-rewriting middleware%s) "+
+		"x %d routing configurations ({StrictRouting} x {CaseSensitive} x {UnescapePath} x {default ctx, custom ctx, custom RequestMethods, %s}) "+
+		"x %d targets (slash-only, dot segments, encoded slash/dot/NUL, asterisk, absolute/authority form, no leading slash, query/fragment only, empty, 1-4 byte paths, an accepted and a refused value for every constraint kind, numbers beyond the integer range, multi-byte / invalid UTF-8 raw and percent-encoded, and %d route bases x %d suffixes: slash runs, every delimiter of the route grammar, encoded bytes, dot segments, queries) "+
 		"x %d methods; every handler probes Path/Route/Params/Bind.URI/Host/Query. ",
 		len(f4ShapeSets(quick)), len(shapes), len(nk), map[bool]string{true: "", false: "; plus every pair of shapes of different kinds, the pairs on the eight configurations with the default context and method list"}[quick],
-		len(cfg4s(quick)), map[bool]string{true: "", false: ", both"}[quick], len(targets4), len(bases4), len(suffixes4), len(methods4(quick)))
+		len(cfg4s(quick)), map[bool]string{true: "both on the all-off and all-on valuation", false: "both"}[quick], len(targets4), len(bases4), len(suffixes4), len(methods4(quick)))
 }
